@@ -164,13 +164,17 @@ reg(Spec(
     "C12", "Props/C12.v", harness="pipes",
     args_quick=["-n", "150"], args_thorough=["-n", "2000"], args_search=["-n", "1000"],
     assumptions=[
-        "bufio.Reader.ReadString is library code: its contract (bytes up to and including the first delimiter; at end of stream the remaining bytes with io.EOF) is stated as read_string and exercised through a real FIFO, not proved",
+        "bufio.Reader is inside the model: Model/Bufio.v follows Go 1.23.5 bufio.go statement by statement at array level (buf, r, w, err; NewReaderSize, fill incl. the slide and the 100-empty-reads loop, readErr, Buffered, ReadSlice incl. the search start index, the pending-error and ErrBufferFull branches, collectFragments, ReadString) over a scripted io.Reader (chunks, (0, nil) reads, a final error with or without last bytes); the contract read_string is PROVED of it for every buffer size, state and script without 100 consecutive empty reads (C12_bufio_contract, C12_bufio_contract_total, C12_bufio_independent), the Ingest loop on it IS ingest (C12_bufio_ingest), io.ErrNoProgress is returned exactly for 100 empty reads in a row (C12_bufio_no_progress, _only, _excluded_exactly); the tie to the real package is the bufio stage (both tiers): real bufio.NewReaderSize over a script reader, ReadString call by call (string, error class, Buffered(), reads served) against the model in Coq, plus an oracle from the script alone; summary.json names the Go version and the sha256 of the bufio.go it ran against",
+        "left out of the bufio model: lastByte/lastRuneSize (UnreadByte/UnreadRune only), collectFragments' totalLen (sizes the strings.Builder), NewReaderSize's shortcut for an rd that is already a *bufio.Reader, negative read counts; bytes.Clone of a full buffer is the identity on immutable values (that the real code clones is what the stage's records longer than the buffer check); the script's own error value must not be bufio.ErrBufferFull (then the real ReadString loops for ever: C12_bufio_buffer_full_source_diverges); os.File never returns (0, nil) for len(p) > 0, so the no-100-empty-reads hypothesis holds of the daemon's reader",
         "the chunks of the model are the pieces in which bytes arrive at the reader; C12_chunk_independent makes the outcome independent of them, so the writer's partition can stand in for the kernel's/bufio's read partition",
         "the callback's verdict is a function of (call index, record); the identity of its error is abstracted to the index of the failing call (harness: the returned error must be == the sentinel)",
         "what Ingest does on cancellation and on open(2) failures is outside C12 (see C13) - except that a callback error is to be returned unchanged also when the context was cancelled before the callback returned it (by the callback or by another goroutine; the close-on-cancel goroutine has closed the file or not: harness cases 'cancel', oracle and model unchanged by them)",
     ],
-    modelled=["ingesters/namedpipe/namedpipeingester.go (Ingest loop)", "ingesters/syslog/syslogingester.go (ParseSyslogMessage)"],
-    extra_targets=["Model/FramingCheck.vo", "Model/SyslogCheck.vo"],
+    modelled=["ingesters/namedpipe/namedpipeingester.go (Ingest loop)", "ingesters/syslog/syslogingester.go (ParseSyslogMessage)",
+              "$GOROOT/src/bufio/bufio.go, Go 1.23.5 (Reader: NewReaderSize, NewReader, fill, readErr, Buffered, ReadSlice, collectFragments, ReadString): Model/Bufio.v, hand-written, tied by the bufio stage"],
+    extra_targets=["Model/FramingCheck.vo", "Model/SyslogCheck.vo", "Model/BufioCheck.vo"],
+    # the bufio.Reader model against the real package: both tiers
+    thorough_extra=[("bufio", {}, ["-n", "3000", "-big", "5"], False, ["-n", "250"])],
 ))
 
 for _p in ("C05", "C07"):
